@@ -10,8 +10,8 @@ from vf.cond import Cond
 
 CONDS = {}
 ASSUMPTIONS = ['labels are ints (unbounded, symbolic) or small tuples of ints; no NaN labels (excluded by the property)']
-OUTSIDE = ('datetime-typed indices; string/float/mixed labels (only the float-equal-to-position append is '
-           'covered); real automap hashing (contract stub); index sizes beyond 4; hierarchy depth > 2')
+OUTSIDE = ('datetime units other than D / M and non-ISO date strings (parsed by NumPy C code); labels beyond the stated '
+           'pools for non-int kinds; real automap hashing (contract stub); index sizes beyond 4; hierarchy depth > 3')
 TRACES_QUICK = 20
 
 
@@ -388,3 +388,180 @@ _add(Cond('index_label_kinds', [('p0', 'int'), ('p1', 'int'), ('p2', 'int'), ('p
         functions=['Index.__init__', 'Index._loc_to_iloc'],
         bounds=f'Index / IndexGO (symbolic) of 3 labels, each drawn symbolically from the pool {POOL} (repeats = duplicates); for IndexGO one more label (one of the first three pool entries) is appended',
         route='Index of mixed label kinds: duplicates rejected; len / iteration / values / positions / loc_to_iloc / membership of EVERY pool element agree with the list; append accepted iff the label is new', timeout=600))
+
+
+# ---------------------------------------------------------------- datetime-typed indices: label FORMS, derivation routes, growth
+
+FORM_TRIPLES = ([0, 0, 0], [0, 1, 2], [2, 1, 0], [1, 2, 0], [2, 2, 2])
+
+
+def body_datetime_index(env, d0, d1, d2, cls_k, go):
+    """IndexDate / IndexYearMonth (and grow-only forms) of three labels, each a symbolic period of a pool given in a symbolic
+    form (ISO string / datetime.date / datetime64): the same period in two forms is a duplicate; otherwise every read route
+    and a lookup of every pool period in every form agree with the list; a derived index (symbolic route) and, for the
+    grow-only form, an append keep the bijection."""
+    from vf import rt
+    import datetime
+    ds = [_conc(v, 0, 3) for v in (d0, d1, d2)]
+    cls_k, go = _conc(cls_k, 0, 1), bool(go)
+
+    def run():
+        got, exp = [], []
+        for fs in FORM_TRIPLES:
+            for route in range(6):
+                if route and (len(set(ds)) < 3 or (fs != FORM_TRIPLES[1] and route not in (4, 5))):
+                    continue
+                g, e = one(fs, route)
+                got.append(g); exp.append(e)
+        return got, exp
+
+    def one(fs, route):
+        sf = env.sf
+        import numpy as real_np   # label values only: concrete datetime64 scalars are NumPy's own objects in both worlds
+        from static_frame.core.exception import ErrorInitIndex, LocInvalid
+        if cls_k == 0:
+            iso = ['2020-01-30', '2020-01-31', '2020-02-01', '2019-12-31']
+            cls = sf.IndexDateGO if go else sf.IndexDate
+            unit = 'D'
+        else:
+            iso = ['2020-01', '2020-02', '2019-12', '2021-01']
+            cls = sf.IndexYearMonthGO if go else sf.IndexYearMonth
+            unit = 'M'
+
+        def form(k, f):
+            if f == 0:
+                return iso[k]
+            if f == 1 and cls_k == 0:
+                y, m, d = (int(x) for x in iso[k].split('-'))
+                return datetime.date(y, m, d)
+            return real_np.datetime64(iso[k], unit)
+
+        def views(ix):
+            locs = []
+            for k in range(4):
+                for f in range(3):
+                    try:
+                        locs.append(env.obs(ix.loc_to_iloc(form(k, f))))
+                    except (KeyError, LocInvalid):
+                        locs.append('absent')
+            return [len(ix), [str(x) for x in ix], [str(x) for x in reversed(ix)], [str(x) for x in ix.values],
+                    env.obs(ix.positions.tolist()), locs, [bool(form(k, 2) in ix) for k in range(4)]]
+
+        def ref(ks):
+            labs = [iso[k] for k in ks]
+            locs = []
+            for k in range(4):
+                locs.extend([(ks.index(k) if k in ks else 'absent')] * 3)
+            return [len(labs), labs, labs[::-1], labs, list(range(len(labs))), locs, [k in ks for k in range(4)]]
+        dup = len(set(ds)) < 3
+        try:
+            idx = cls([form(k, f) for k, f in zip(ds, fs)])
+            built = True
+        except ErrorInitIndex:
+            built = False
+        got, exp = [built], [not dup]
+        if not built or dup:
+            return got, exp
+        got.append(views(idx)); exp.append(ref(ds))
+        ks = list(ds)
+        if go:
+            other = [k for k in range(4) if k not in ds][0]
+            for k, accept in ((ds[1], False), (other, True)):
+                try:
+                    idx.append(form(k, fs[0]))
+                    ok = True
+                except KeyError:
+                    ok = False
+                got.append(ok); exp.append(accept)
+                if accept:
+                    ks = ks + [k]
+            got.append(views(idx)); exp.append(ref(ks))
+        order = sorted(range(len(ks)), key=lambda i: iso[ks[i]])
+        if route == 0:
+            der, dks = idx.iloc[[2, 0]], [ks[2], ks[0]]
+        elif route == 1:
+            der, dks = idx.roll(1), ks[-1:] + ks[:-1]
+        elif route == 2:
+            der, dks = idx.sort(ascending=False), [ks[i] for i in reversed(order)]
+        elif route == 3:
+            der, dks = idx.drop.iloc[1], ks[:1] + ks[2:]
+        elif route == 4:
+            o = cls([form(ks[1], 2), form(3, 0)]) if 3 not in ks[1:2] else cls([form(ks[1], 2)])
+            der = idx.union(o)
+            dks = sorted(set(ks) | {ks[1], 3}, key=lambda k: iso[k])
+            der = der.sort()
+        else:
+            der = idx.intersection(cls([form(ks[2], fs[1]), form(ks[0], fs[2])])).sort()
+            dks = sorted({ks[2], ks[0]}, key=lambda k: iso[k])
+        got.append([type(der).__name__, views(der)]); exp.append([cls.__name__, ref(dks)])
+        return got, exp
+    return rt.untraced(run)
+
+
+_add(Cond('datetime_index_forms_and_routes', [('d0', 'int'), ('d1', 'int'), ('d2', 'int'), ('cls_k', 'int'), ('go', 'bool')], body_datetime_index,
+        ranges={'d0': (0, 3), 'd1': (0, 3), 'd2': (0, 3), 'cls_k': (0, 1)},
+        functions=['IndexDatetime.__init__', 'IndexDatetime._loc_to_iloc', '_IndexDatetimeGOMixin.append', 'Index.roll', 'Index.sort', 'Index._drop_iloc', 'Index._ufunc_set'],
+        bounds='IndexDate / IndexYearMonth and their grow-only forms (symbolic) of 3 labels, each a symbolic member of a pool of 4 periods; inside each path 5 triples of label forms (ISO string, datetime.date, datetime64) and 6 derivation routes (iloc list, roll, descending sort, drop, union, intersection); grow-only: a duplicate and a new period appended',
+        route='datetime-typed indices: the same period in two forms is a duplicate; len / iteration / reversed / values / positions / membership and loc_to_iloc of every pool period in every form agree with the list, also after append and on derived indices (which keep their type)', timeout=600))
+
+
+# ---------------------------------------------------------------- deeper grow-only hierarchies: append under held / non-terminal labels
+
+def tree_append_ok(tuples, t):
+    """Appending t keeps `tuples` a tree in the given order iff t is new and every prefix of t that is already held is a
+    prefix of the LAST tuple (the labels with that prefix stay contiguous)."""
+    if t in tuples:
+        return False
+    for k in range(1, len(t)):
+        if any(u[:k] == t[:k] for u in tuples) and tuples[-1][:k] != t[:k]:
+            return False
+    return True
+
+
+def body_ihgo_deep(env, depth, o, m, l, l2, read):
+    from vf import rt
+    depth, o, m, l, l2, read = _conc(depth, 3, 4), _conc(o, 0, 2), _conc(m, 0, 2), _conc(l, 0, 1), _conc(l2, 0, 1), bool(read)
+
+    def run():
+        sf = env.sf
+        O, M = 'abc', 'xyz'
+        if depth == 3:
+            tuples = [('a', 'x', 0), ('a', 'y', 0), ('b', 'x', 0), ('b', 'y', 0)]
+            t = (O[o], M[m], l)
+        else:
+            tuples = [('a', 'x', 0, 0), ('a', 'y', 0, 0), ('b', 'x', 0, 0), ('b', 'x', 1, 0), ('b', 'y', 0, 0)]
+            t = (O[o], M[m], l, l2)
+        g = sf.IndexHierarchyGO.from_labels(list(tuples))
+        if read:
+            _ = g.values
+        try:
+            g.append(t)
+            ok = True
+        except Exception:  # noqa: BLE001  (duplicate leaf, or a label held at a non-terminal position)
+            ok = False
+        ref_ok = tree_append_ok(tuples, t)
+        if ref_ok:
+            tuples = tuples + [t]
+        pool = [(a, b, c) + ((d,) if depth == 4 else ()) for a in O for b in M for c in (0, 1) for d in ((0, 1) if depth == 4 else (0,))]
+
+        def views(ix):
+            locs = []
+            for p in pool:
+                try:
+                    locs.append(env.obs(ix.loc_to_iloc(p)))
+                except KeyError:
+                    locs.append('absent')
+            return [len(ix), ix.depth, env.obs([tuple(x) for x in ix]), env.obs([tuple(r) for r in ix.values.tolist()]), locs, [bool(p in ix) for p in pool]]
+
+        def ref():
+            return [len(tuples), depth, [list(u) for u in tuples], [list(u) for u in tuples], [(tuples.index(p) if p in tuples else 'absent') for p in pool], [p in tuples for p in pool]]
+        got, exp = [ok, views(g), views(sf.IndexHierarchy(g))], [ref_ok, ref(), ref()]
+        return got, exp
+    return rt.untraced(run)
+
+
+_add(Cond('hierarchy_go_deep_append', [('depth', 'int'), ('o', 'int'), ('m', 'int'), ('l', 'int'), ('l2', 'int'), ('read', 'bool')], body_ihgo_deep,
+        ranges={'depth': (3, 4), 'o': (0, 2), 'm': (0, 2), 'l': (0, 1), 'l2': (0, 1)}, pre=['depth == 4 or l2 == 0'],
+        functions=['IndexHierarchyGO.append', 'IndexLevelGO.append', 'IndexLevel.leaf_loc_to_iloc', 'IndexHierarchy._update_array_cache'],
+        bounds='IndexHierarchyGO of depth 3 or 4 (symbolic) over a 4-5 leaf tree; the appended tuple has every level symbolic in a pool of 3 / 3 / 2 / 2 labels (new, duplicate, held under the last parent, held under an earlier parent at any depth); arrays read before the append or not',
+        route='IndexHierarchyGO.append: accepted iff the tuple is new and every held prefix is a prefix of the last tuple, else raises and nothing changes; afterwards len / depth / iteration / values / membership and loc_to_iloc of EVERY pool tuple agree with the list, on the index and on a static copy', timeout=400))
